@@ -104,12 +104,14 @@ def real_parse(ctx, text, base=None, tag='m', file=None):
 def obs_nodes(nodelist):
     out = []
     for n in nodelist:
-        val = None if n.value is None else plain(n.value.value)
-        unit = None if n.value is None else getattr(n.value, 'unit', None)
+        # a well-formed node holds a Type object; anything else (None, a bare str, ...) is an unreadable entry
+        typed = n.value is not None and hasattr(n.value, 'value')
+        val = plain(n.value.value) if typed else None
+        unit = getattr(n.value, 'unit', None) if typed else None
         opts = []
         for o in (getattr(n, 'options', None) or []):
             opts.append((plain(o.value.value), getattr(o.value, 'unit', None)))
-        out.append(dict(name=n.name, kw=n.keyword, value=val, unit=unit, opts=opts,
+        out.append(dict(name=n.name, kw=n.keyword, value=val, unit=unit, opts=opts, typed=typed,
                         cond=getattr(n, 'condition', None), const=bool(getattr(n, 'constant', False))))
     return out
 
@@ -198,7 +200,7 @@ def diff_nodes(real_nodes, menv):
 def split_unreadable(obs):
     good, bad = [], []
     for n in obs['nodes']:
-        (bad if n['value'] is None else good).append(n)
+        (bad if (n['value'] is None or not n.get('typed', True) or n['kw'] == 'import') else good).append(n)
     return good, bad
 
 
